@@ -36,7 +36,7 @@ import numpy as np
 from hypothesis import strategies as st
 
 from vp import pbt
-from vp.pbt import SubCheck
+from vp.pbt import SubCheck, represent
 from vp.ref import stats as R
 
 PROPERTY = "C10"
@@ -265,7 +265,8 @@ def window_constant(X, lags, L):
 
 def CA(X):
     from pyunicorn.funcnet import CouplingAnalysis
-    return CouplingAnalysis(np.array(X, dtype=np.float64), silence_level=3)
+    return CouplingAnalysis(represent(np.array(X, dtype=np.float64)),
+                            silence_level=3)
 
 
 # ========================================================= cross correlation
